@@ -4,7 +4,7 @@ import ast
 from ..pygrammar import combinator_functions
 from .. import rules_grammar as rg
 from ..core import AnalysisError, src
-from ..pysym import SymExec, show, subterms
+from ..pysym import SymExec, show, subterms, all_calls
 from ..rules_pyx import N, C, A
 
 EXPLANATION = (
@@ -157,11 +157,11 @@ def r_unary_labels(repo, rep, R='R4.3'):
     au = mod.get('apply_unary_rules')
     ok = False
     for st, out in SymExec(au, unroll=1).run():
-        for e in st.events:
-            if e[0] == 'call' and e[1][1] == N('CombinatorResult'):
-                kw = dict(e[1][3])
-                want = ('call', N('_unary_rule_symbol'), (N(au.args.args[0].arg),), ())
-                ok = kw.get('op_string') == want and kw.get('op_symbol') == want
+        for call in all_calls(st, N('CombinatorResult')):
+            kw = dict(call[3])
+            pos = list(call[2])
+            want = ('call', N('_unary_rule_symbol'), (N(au.args.args[0].arg),), ())
+            ok = kw.get('op_string', pos[1] if len(pos) > 1 else None) == want and kw.get('op_symbol', pos[2] if len(pos) > 2 else None) == want
     rep.check(ok, R, '%s:%s apply_unary_rules' % (mod.rel, au.lineno), '%s:apply_unary_rules:symbol' % mod.rel,
               'unary results are labelled _unary_rule_symbol(x) of the input category', 'unary results are not labelled by _unary_rule_symbol(x)')
 
